@@ -48,8 +48,6 @@ def totalHits (s : DNode) : Nat := (allAclIds.map (fun a => aclHits (s.acls a)))
 def initNode : DNode :=
   { kind := .host, on := true, ifaces := [], acls := fun _ => Acl.empty 24 .deny, sw := {} }
 
-def isOwnIp (s : DNode) (ip : Ip) : Bool := s.ifaces.any (fun i => i.ip == ip)
-
 /-- stub software, parametrised by the verdict count at arrival, the forward port, the DMZ look-up result -/
 def stub (base : Nat) (fwd : Option Nat) (nic : Option Nat) (reply : Bool) : Soft Sw :=
   let ev (s : DNode) (name : String) : Sw := { s.sw with log := s.sw.log ++ [s!"{name}@{totalHits s - base}"] }
@@ -62,9 +60,7 @@ def stub (base : Nat) (fwd : Option Nat) (nic : Option Nat) (reply : Bool) : Sof
     learn := fun s _ _ => ev s "learn"
     hostAccept := fun s f =>
       f.pkt.proto == .icmp || (match f.pkt.ports with | some (_, d) => s.sw.openPorts.contains d | none => false)
-    toSession := fun s f =>
-      isOwnIp s f.pkt.dstIp &&
-        (f.pkt.proto == .icmp || (match f.pkt.ports with | some (_, d) => s.sw.openPorts.contains d | none => false))
+    toSession := stdToSession (fun s => s.sw.openPorts)
     session := fun s p f => out s "session" (if reply then some p else none) f
     process := fun s _ f => out s "process" fwd f
     dmzLookup := fun s _ _ => .done { s with sw := ev s "lookup" }
